@@ -197,6 +197,7 @@ def replay_py(witness):
     envv = dict(os.environ)
     envv["PYTHONPATH"] = VERIF
     envv["VERIF_STAGE"] = stage
+    envv.update(witness.get("env") or {})
     try:
         p = subprocess.run([PY, "-m", "vf.replay_worker", path], capture_output=True, text=True, env=envv,
                            timeout=300, cwd=VERIF)
